@@ -24,6 +24,7 @@ META = dict(
                    "run_form1", "run_form2", "run_form3", "run_bitwise_operators", "run_usage_refused", "cards_dump_load"],
     max_inconclusive_frac=0.1,
 )
+META["level_text"] += ' The two-argument form is also run with a symlinked operator card; `runcards example` is also run into a destination holding different valid cards.'
 
 EKO_BIN = "/venv/bin/eko"
 
